@@ -238,6 +238,18 @@ def s_lit(v):
     return SLit(lit_width(v), v)
 
 
+def s_as_qint(x, k):
+    """the value of an actual argument as seen through a formal declared Qint[k]"""
+    if isinstance(x, bool) or not isinstance(x, (SInt, int)):
+        return x                 # another class: left to the operations' own rejections
+    x = SInt.of(x)
+    if x.w > k:
+        raise Reject("actual argument wider than the formal")
+    if x.w == k:
+        return x
+    return SInt(k, x.v, x.k)
+
+
 def s_int(x):
     if isinstance(x, SFix):
         return SInt(max(x.I, 2), x.n >> x.F)
@@ -334,7 +346,7 @@ class _Sub:
 
 def base_namespace():
     ns = {"Tuple": Tuple, "List": _Sub(), "int": s_int, "float": s_float, "ord": s_ord, "chr": s_chr, "print": lambda *a, **k: None,
-          "len": s_len, "max": s_max, "min": s_min, "sum": s_sum, "all": s_all, "any": s_any, "__lit": s_lit, "range": range,
+          "len": s_len, "max": s_max, "min": s_min, "sum": s_sum, "all": s_all, "any": s_any, "__lit": s_lit, "__as_qint": s_as_qint, "range": range,
           "bool": bool}
     for nm in ("Qint", "Qfixed", "Qlist", "Qmatrix", "Parameter"):
         ns[nm] = _Sub()
@@ -390,8 +402,21 @@ class _Prep(ast.NodeTransformer):
     def visit_FunctionDef(self, n):
         n.body = [self.visit(b) for b in n.body]
         n.returns = None
+        # a formal declared Qint[k] HAS width k inside the function, whatever (narrower) integer the caller passes: the value is zero extended at
+        # the call boundary (callee semantics under the documented fixed-width types); top-level arguments already arrive in their declared type
+        coerce = []
         for a in n.args.args:
+            ann = a.annotation
+            k = None
+            if isinstance(ann, ast.Subscript) and isinstance(ann.value, ast.Name) and ann.value.id == "Qint" and isinstance(ann.slice, ast.Constant):
+                k = ann.slice.value
+            elif isinstance(ann, ast.Name) and ann.id.startswith("Qint") and ann.id[4:].isdigit():
+                k = int(ann.id[4:])
+            if isinstance(k, int):
+                coerce.append(ast.Assign(targets=[ast.Name(id=a.arg, ctx=ast.Store())],
+                                         value=ast.Call(func=ast.Name(id="__as_qint", ctx=ast.Load()), args=[ast.Name(id=a.arg, ctx=ast.Load()), ast.Constant(k)], keywords=[])))
             a.annotation = None
+        n.body = coerce + n.body
         n.decorator_list = []
         return n
 
